@@ -238,8 +238,8 @@ structure WidthFn (f : RBox → Except Err RBox) : Prop where
   limits : ∀ b b', f b = .ok b' → b'.minWidth = b.minWidth ∧ b'.maxWidth = b.maxWidth
   keeps : ∀ b b' w, b.width = some w → f b = .ok b' → b'.width = some w
 
-theorem mmwMax_spec (f : RBox → Except Err RBox) (hf : WidthFn f) (ml mr : Len) (b b' : RBox)
-    (hres : mmwMax f ml mr b = .ok b') :
+theorem mmwMax_spec (f : RBox → Except Err RBox) (hf : WidthFn f) (ml mr : Len) (px : Rat) (b b' : RBox)
+    (hres : mmwMax f ml mr px b = .ok b') :
     b'.minWidth = b.minWidth ∧ b'.maxWidth = b.maxWidth ∧
     ∃ w, b'.width = some w ∧ ∀ m, b.maxWidth = some m → w ≤ m := by
   unfold mmwMax at hres
@@ -259,8 +259,8 @@ theorem mmwMax_spec (f : RBox → Except Err RBox) (hf : WidthFn f) (ml mr : Len
         subst hres
         exact ⟨rfl, hm, w, hw, by intro m' hm'; obtain rfl := Option.some.inj hm'; exact not_lt.mp hgt⟩
 
-theorem mmwMin_spec (f : RBox → Except Err RBox) (hf : WidthFn f) (ml mr : Len) (b b' : RBox)
-    (hres : mmwMin f ml mr b = .ok b') :
+theorem mmwMin_spec (f : RBox → Except Err RBox) (hf : WidthFn f) (ml mr : Len) (px : Rat) (b b' : RBox)
+    (hres : mmwMin f ml mr px b = .ok b') :
     b'.minWidth = b.minWidth ∧ b'.maxWidth = b.maxWidth ∧
     ∃ w, b'.width = some w ∧ b.minWidth ≤ w ∧ (w = b.minWidth ∨ b.width = some w) := by
   unfold mmwMin at hres
@@ -285,11 +285,11 @@ theorem withMinMaxWidth_bounds (f : RBox → Except Err RBox) (hf : WidthFn f) (
   · simp [h1] at hres
   · simp only [h1] at hres
     obtain ⟨l1min, l1max⟩ := hf.limits b b1 h1
-    rcases h2 : mmwMax f b.marginLeft b.marginRight b1 with e | b2
+    rcases h2 : mmwMax f b.marginLeft b.marginRight b.positionX b1 with e | b2
     · simp [h2] at hres
     · simp only [h2] at hres
-      obtain ⟨l2min, l2max, w2, hw2, hle2⟩ := mmwMax_spec f hf _ _ _ _ h2
-      obtain ⟨l3min, l3max, w3, hw3, hge3, hor⟩ := mmwMin_spec f hf _ _ _ _ hres
+      obtain ⟨l2min, l2max, w2, hw2, hle2⟩ := mmwMax_spec f hf _ _ _ _ _ h2
+      obtain ⟨l3min, l3max, w3, hw3, hge3, hor⟩ := mmwMin_spec f hf _ _ _ _ _ hres
       refine ⟨by rw [l3min, l2min, l1min], by rw [l3max, l2max, l1max], w3, hw3,
         by rw [← l1min, ← l2min]; exact hge3, ?_⟩
       rcases hor with h | h
@@ -484,7 +484,7 @@ theorem withMinMaxWidth_total (f : RBox → Except Err RBox) (hf : WidthFn f)
     (htot : ∀ b, ∃ b' w, f b = .ok b' ∧ b'.width = some w) (b : RBox) :
     ∃ b', withMinMaxWidth f b = .ok b' := by
   obtain ⟨b1, w1, h1, hw1⟩ := htot b
-  have hmax : ∃ b2 w2, mmwMax f b.marginLeft b.marginRight b1 = .ok b2 ∧ b2.width = some w2 := by
+  have hmax : ∃ b2 w2, mmwMax f b.marginLeft b.marginRight b.positionX b1 = .ok b2 ∧ b2.width = some w2 := by
     unfold mmwMax
     simp only [hw1, num, bind, Except.bind]
     rcases b1.maxWidth with _ | m
@@ -494,11 +494,11 @@ theorem withMinMaxWidth_total (f : RBox → Except Err RBox) (hf : WidthFn f)
       · exact htot _
       · exact ⟨b1, w1, rfl, hw1⟩
   obtain ⟨b2, w2, h2, hw2⟩ := hmax
-  have hmin : ∃ b3, mmwMin f b.marginLeft b.marginRight b2 = .ok b3 := by
+  have hmin : ∃ b3, mmwMin f b.marginLeft b.marginRight b.positionX b2 = .ok b3 := by
     unfold mmwMin
     simp only [hw2, num, bind, Except.bind]
     split_ifs
-    · obtain ⟨b3, w3, h3, _⟩ := htot { b2 with width := some b2.minWidth, marginLeft := b.marginLeft, marginRight := b.marginRight }
+    · obtain ⟨b3, w3, h3, _⟩ := htot { b2 with width := some b2.minWidth, marginLeft := b.marginLeft, marginRight := b.marginRight, positionX := b.positionX }
       exact ⟨b3, h3⟩
     · exact ⟨b2, rfl⟩
   obtain ⟨b3, h3⟩ := hmin
